@@ -431,3 +431,9 @@ def replay(case, acc):
 
 def unit_test(case):
     return "# see witness: value / options / metadata mode; laws in mc/checks/c10.py\n# " + repr(case) + "\n"
+
+
+def ENV_SHARDS(tier):
+    """The broad, cheap families: run again in a fresh interpreter per environment (engine.run_environments)."""
+    return [s for s in shards('quick') if s[0] in ("specials", "ints", "casekeys")]
+
